@@ -539,6 +539,10 @@ func init() {
 		o := x.e.newObj(st, &OpaqueV{Tag: "pubkey", Data: map[string]Val{"addr": addr}})
 		return &TupleV{Vs: []Val{&PtrV{Nil: Not(ok), Obj: o}, &ErrV{IsNil: ok}}}
 	})
+	reg(gcr+"Sign", "(sign(digest, key), err): uninterpreted; recovering the signer of sign(d, k) over d gives the key's address (not used by the obligations)", func(x *Exec, st *State, ci *callInfo, a []Val) Val {
+		x.e.declareFun("uf_sign", "(String) String")
+		return &TupleV{Vs: []Val{app(SString, "uf_sign", tt(a[0])), &ErrV{IsNil: x.e.fresh("signok", SBool)}}}
+	})
 	reg(gcr+"PubkeyToAddress", "the address of the recovered key", func(x *Exec, st *State, ci *callInfo, a []Val) Val {
 		if o, ok := a[0].(*OpaqueV); ok && o.Tag == "pubkey" {
 			return o.Data["addr"]
